@@ -9,7 +9,7 @@ VARIABLE l
 
 Rng(s) == { s[i] : i \in 1..Len(s) }
 IsEv(k) == l <= Len(Log) /\ Log[l].ev = k /\ l' = l + 1
-Skipped == {"lookup", "sync_deleted"}
+Skipped == {"lookup", "sync_deleted", "pod_exist_err"}
 
 CloudOf(lst) == [e \in Enis |-> IF \E i \in 1..Len(lst) : lst[i].e = e
                                 THEN LET x == lst[CHOOSE i \in 1..Len(lst) : lst[i].e = e] IN
